@@ -172,7 +172,7 @@ func c09Gen(r *kit.Run) (*c09Scenario, *c09Store) {
 	if g.Choose(3) == 0 {
 		sc.Layer = "inquery"
 	}
-	sc.Dups = g.Choose(6) == 0
+	sc.Dups = g.Choose(4) == 0
 	st := &c09Store{}
 	stamp := 0
 	next := func() string {
@@ -368,7 +368,7 @@ func (c09) Exec(r *kit.Run) {
 			check := func(where string) bool {
 				got := c09Dump(interp)
 				if got != st.dump() {
-					r.Fail("db-mismatch", "db-differs:"+where, "after %s the database is\n  %s\nthe model has\n  %s", where, got, st.dump())
+					r.Fail("db-mismatch", "db-differs:"+c09Where(where), "after %s the database is\n  %s\nthe model has\n  %s", where, got, st.dump())
 					return false
 				}
 				return true
